@@ -223,7 +223,7 @@ impl Scenario for DigestStream {
             abstract_state: "(sink kind, bytes-in-flight bucket modulo the block size, reversed?, forked?, call kind)",
             real: &["bsv::Sha256r / Sha256d / Hash160 through digest::{Update, Reset, FixedOutput, FixedOutputDirty}, Clone and ReversibleDigest", "hmac::Hmac over the three adapters (the composition Hash::*_hmac and RFC 6979 use)", "bsv::Hash::{sha_1, sha_256, sha_256d, sha_512, ripemd_160, hash_160} and their *_hmac variants", "bsv::KDF::pbkdf2 (SHA-1/256/512)"],
             stub: &["model = bytes accepted since the last reset, hashed one-shot by sha2 / sha-1 / ripemd160 directly", "textbook RFC 2104 HMAC and RFC 8018 PBKDF2 over those primitives (reference-model oracles without a schedule dimension of their own)"],
-            assumptions: &["the primitive crates sha2, sha-1 and ripemd160 are the independent reference for the published algorithms", "reversed instances are never reset in generated schedules: the property does not say whether the mode survives a reset"],
+            assumptions: &["the primitive crates sha2, sha-1 and ripemd160 are the independent reference for the published algorithms", "an instance obtained through reverse() stays reversed for its lifetime, across reset and *_reset finishers (the mode is a property of the instance; this is what the shipped adapters do)"],
             required_probes: &["frag:dribble1", "frag:block-aligned", "frag:boundary", "frag:random", "frag:zero-length", "via_digest_trait", "fork_midstream", "reset_midstream", "finalize_reset_then_second_message", "reversed_finalize", "oneshot", "hmac_key_longer_than_block", "pbkdf2_multi_block"],
             quick_runs: 100000,
             thorough_runs: 5000000,
@@ -280,10 +280,10 @@ impl Scenario for DigestStream {
                             events.push(json!({"op": "fork", "sink": s}));
                             n_sinks += 1;
                         }
-                        if !reversed && rng.chance(1, 25) {
+                        if rng.chance(1, 25) {
                             events.push(json!({"op": "reset", "sink": s}));
                         }
-                        if !reversed && rng.chance(1, 25) {
+                        if rng.chance(1, 25) {
                             events.push(json!({"op": "finalize_reset", "sink": s, "how": *rng.pick(&["fixed_reset", "into_reset"])}));
                         }
                     }
@@ -291,7 +291,8 @@ impl Scenario for DigestStream {
                         events.push(json!({"op": "reverse", "sink": s}));
                         reversed = true;
                     }
-                    if !reversed && rng.chance(1, 3) {
+                    let _ = reversed;
+                    if rng.chance(1, 3) {
                         // finish, then a second message through the same sink
                         events.push(json!({"op": "finalize_reset", "sink": s, "how": *rng.pick(&["fixed_reset", "into_reset"])}));
                         let m = rng.range(0, 130) as usize;
@@ -531,8 +532,7 @@ impl Scenario for DigestStream {
                         "reset" => {
                             let s = sinks[i].as_mut().unwrap();
                             if s.reversed {
-                                ctx.skip();
-                                continue;
+                                ctx.probe("reset_of_reversed_instance");
                             }
                             if !s.model.is_empty() {
                                 ctx.probe("reset_midstream");
@@ -585,8 +585,7 @@ impl Scenario for DigestStream {
                         "finalize_reset" => {
                             let s = sinks[i].as_mut().unwrap();
                             if s.reversed {
-                                ctx.skip();
-                                continue;
+                                ctx.probe("finalize_reset_of_reversed_instance");
                             }
                             let how = jstr(ev, "how").to_string();
                             let got = guard(|| match &mut s.eng {
